@@ -261,6 +261,44 @@ CLAIMED["C20"] = (
     "Lean 4 proof (lock invariant and convergence by induction over histories, on top of C05's replay law) with model-code correspondence",
     "DESIGN.md §5 C20, §10.2")
 
+CLAIMED["C14"] = (
+    "Lean 4 theorems over a model of object persistence (getstate of non-transient traits, container __getstate__ dropping "
+    "owner/trait/notifiers, setstate = re-assignment of every value through validation so that nested containers are re-wrapped "
+    "and re-bound, copy_traits / clone_traits / __deepcopy__ with per-trait copy metadata, ReadOnly/transient kinds) over nested "
+    "container values: a pickle round trip of any well-formed object is value-equal on persisted traits with transient traits "
+    "absent (structural induction on nested values), every container at a declared position at every depth is a new Trait*Object "
+    "bound to the copy, no node identity is shared under pickle / deepcopy (full strength after fix 50c4e1f) / deep clone and "
+    "exactly the sharing ref/shallow metadata ask for otherwise, the copy is a live state (invalid items rejected at any path, "
+    "owner notified), ReadOnly stays written; CTrait state: for every trait in the inductive closure of the constructing API calls "
+    "setstateIdx (getstateIdx t) = t, resting on table coverage proved by decide over the C handler tables regenerated from "
+    "ctraits.c on every run (reverting fix ad5fa01 breaks this obligation and crashes the subprocess probe). Clauses the code "
+    "violates are refuted with witnesses (F71 deep copy of an unpickled Trait*Object, F72 all-transient class clones everything). "
+    "Correspondence: objects after arbitrary container histories x pickle protocols 0-5, copy, deepcopy, clone modes, per-trait "
+    "metadata; Instance graphs and CTrait round trips of every trait type in a crash-isolated subprocess.",
+    "Trusted: Lean kernel, standard axioms; translator ctables; pickle/copy drivers and Instance graphs are modelled as leaves and "
+    "covered by oracle-only graph cases; leaf validators are parameters (Idem, CopyStable, WFObj = the invariants C01/C04 "
+    "establish); hostile __setstate__ tuples excluded; harness.",
+    "Lean 4 proof (round trip, re-binding, no sharing by structural induction; table coverage by decide over translated C tables) with correspondence",
+    "DESIGN.md §5 C14, §10.2")
+CLAIMED["C18"] = (
+    "PARTIAL BY NATURE. What a Lean model can carry is proved: (a) table-index safety over the C handler tables, guards and "
+    "constants regenerated from ctraits.c on every run — func_index terminates inside the array for every function assignable to "
+    "a field, getstate/setstate indices in bounds, all six guarded index variables in bounds and non-NULL, default_value_type "
+    "guard covers every case that subscripts the default tuple, state tuple layout agrees between getstate and setstate; (b) a "
+    "reference ledger for attribute get/set: a rejected assignment or a read whose factory raises leaves held counts unchanged, a "
+    "success changes them by exactly the slots written, untouched objects keep their count, exact after fix f934ab1. The "
+    "correspondence compares sys.getrefcount deltas of every value, name and object passed in around each real operation with the "
+    "ledger. What it cannot carry — out-of-bounds access, use-after-free, undefined behaviour — is runtime truth: the thorough "
+    "tier runs ~4000 generated API programs (re-entrant handlers, callbacks raising at each ordinal, add/remove trait, pickling, "
+    "gc at every point) in a subprocess against a clang-14 ASan+UBSan build of the extension, the quick tier fewer programs on the "
+    "normal build watching for crashes; a report or crash is a violation with the program as replay. That tier is failing-input "
+    "search, not proof, and is labelled so in the evidence. NULL dereferences through raw CTrait(kind) objects (F75-F78) are known findings.",
+    "Trusted: Lean kernel, standard axioms; translator ctables (regex reader, fails closed); ledger scope is TraitKind.trait with "
+    "non re-entrant handlers; tuple-shape agreement between _trait_set_validate cases and each validate_* function is exercised "
+    "only under the sanitizer; no allocation-failure injection; hostile __setstate__ tuples excluded; the sanitizer tier is search; harness.",
+    "Lean 4 proof (table-index safety by decide over translated C tables; reference ledger) + refcount correspondence; sanitizer runs as failing-input search",
+    "DESIGN.md §5 C18, §10.2")
+
 NOT_YET = "check not built yet in this round (planned in DESIGN.md §9); not claimed until it exists"
 
 
